@@ -75,6 +75,137 @@ fn crate_source_ordered(items: &[String], order: &[usize]) -> String {
     s
 }
 
+/// The same modules in the given order, each item in different *surroundings*: plainly in its
+/// module, in a nested module, in a function body, or produced by a `macro_rules!` expansion
+/// (its tokens then carry the macro definition's spans and hygiene).  The derive inputs are
+/// the same token for token.
+fn crate_source_surroundings(items: &[String], order: &[usize]) -> String {
+    let mut s = String::from("#![allow(warnings)]\n");
+    for i in order {
+        let it = &items[*i];
+        match i % 4 {
+            0 => s.push_str(&format!("pub mod m{} {{\nuse o2o::o2o;\n#[derive(o2o)]\n{}}}\n", i, it)),
+            1 => s.push_str(&format!("pub mod m{} {{\npub mod inner {{ pub mod deeper {{\nuse o2o::o2o;\n#[derive(o2o)]\n{}}} }}\n}}\n", i, it)),
+            2 => s.push_str(&format!("pub mod m{} {{\nfn surrounding_fn() {{\nuse o2o::o2o;\n#[derive(o2o)]\n{}}}\n}}\n", i, it)),
+            _ => s.push_str(&format!("pub mod m{} {{\nmacro_rules! make_item {{ () => {{\nuse o2o::o2o;\n#[derive(o2o)]\n{}}} }}\nmake_item!();\n}}\n", i, it)),
+        }
+    }
+    s
+}
+
+/// Token-level rendering of an expansion, module by module, with the surroundings unwrapped:
+/// everything inside `mod mK { .. }` -- the item, whatever the derive produced beside it, in
+/// order -- as a flat token string.  Formatting (where rustc's pretty printer breaks lines
+/// and hence adds trailing commas, which depends on the indentation of the surroundings) is
+/// not part of it; every token is.
+fn canon_tokens(ts: proc_macro2::TokenStream, out: &mut String) {
+    use proc_macro2::{Delimiter, TokenTree};
+    let v: Vec<TokenTree> = ts.into_iter().collect();
+    let mut n = v.len();
+    // a trailing comma before a closing delimiter is formatting
+    if n > 0 {
+        if let TokenTree::Punct(p) = &v[n - 1] {
+            if p.as_char() == ',' {
+                n -= 1;
+            }
+        }
+    }
+    for t in &v[..n] {
+        match t {
+            TokenTree::Group(g) => {
+                let (o, c) = match g.delimiter() {
+                    Delimiter::Parenthesis => ("(", ")"),
+                    Delimiter::Brace => ("{", "}"),
+                    Delimiter::Bracket => ("[", "]"),
+                    Delimiter::None => ("", ""),
+                };
+                out.push_str(o);
+                out.push(' ');
+                canon_tokens(g.stream(), out);
+                out.push_str(c);
+                out.push(' ');
+            },
+            TokenTree::Punct(p) => {
+                // (whether two puncts are printed adjacent is the pretty printer's choice)
+                out.push(p.as_char());
+                out.push(' ');
+            },
+            other => {
+                out.push_str(&other.to_string());
+                out.push(' ');
+            },
+        }
+    }
+}
+
+fn unwrap_surroundings(ts: proc_macro2::TokenStream) -> proc_macro2::TokenStream {
+    use proc_macro2::{Delimiter, TokenTree};
+    let mut v: Vec<TokenTree> = ts.into_iter().collect();
+    loop {
+        let is_ident = |t: &TokenTree, s: &str| matches!(t, TokenTree::Ident(i) if i == s);
+        // the definition of the macro that produced the item stays in the expanded crate
+        if let Some(k) = (0..v.len().saturating_sub(3)).find(|&k| is_ident(&v[k], "macro_rules") && is_ident(&v[k + 2], "make_item") && matches!(&v[k + 3], TokenTree::Group(_))) {
+            v.drain(k..k + 4);
+            continue;
+        }
+        if v.len() == 4 && is_ident(&v[0], "pub") && is_ident(&v[1], "mod") && (is_ident(&v[2], "inner") || is_ident(&v[2], "deeper")) {
+            if let TokenTree::Group(g) = &v[3] {
+                if g.delimiter() == Delimiter::Brace {
+                    v = g.stream().into_iter().collect();
+                    continue;
+                }
+            }
+        }
+        if v.len() == 4 && is_ident(&v[0], "fn") && is_ident(&v[1], "surrounding_fn") {
+            if let TokenTree::Group(g) = &v[3] {
+                if g.delimiter() == Delimiter::Brace {
+                    v = g.stream().into_iter().collect();
+                    continue;
+                }
+            }
+        }
+        break;
+    }
+    v.into_iter().collect()
+}
+
+/// None if rustc's output does not lex as Rust (then nothing is compared: never an alarm)
+fn normalise_acc_modules(rendering: &str) -> Option<String> {
+    use proc_macro2::{Delimiter, TokenTree};
+    let ts: proc_macro2::TokenStream = rendering.parse().ok()?;
+    let v: Vec<TokenTree> = ts.into_iter().collect();
+    let mut blocks: Vec<(usize, String)> = Vec::new();
+    for i in 0..v.len().saturating_sub(2) {
+        let (TokenTree::Ident(kw), TokenTree::Ident(name), TokenTree::Group(g)) = (&v[i], &v[i + 1], &v[i + 2]) else { continue };
+        if kw != "mod" || g.delimiter() != Delimiter::Brace {
+            continue;
+        }
+        let name = name.to_string();
+        let Some(k) = name.strip_prefix('m').and_then(|x| x.parse::<usize>().ok()) else { continue };
+        let mut s = String::new();
+        canon_tokens(unwrap_surroundings(g.stream()), &mut s);
+        blocks.push((k, s));
+    }
+    blocks.sort_by_key(|b| b.0);
+    Some(blocks.into_iter().map(|b| format!("m{}: {}", b.0, b.1)).collect::<Vec<_>>().join("\n"))
+}
+
+/// `rej` rendering as (module, level, message) in emitted order per module, positions dropped,
+/// restricted to the diagnostics the *derive* produced (their texts are known from the host
+/// tier): what rustc itself reports about an item -- unresolved types, misplaced bounds --
+/// legitimately depends on where the item sits (module, function body, macro expansion)
+fn normalise_rej_messages(rendering: &str, lib_rs: &str, o2o_messages: &std::collections::BTreeSet<String>) -> String {
+    normalise_rej(rendering, lib_rs)
+        .lines()
+        .map(|l| l.rsplitn(2, '|').nth(1).unwrap_or(l).to_string())
+        .filter(|l| {
+            let msg = l.splitn(3, '|').nth(2).unwrap_or("");
+            o2o_messages.contains(msg) || msg.starts_with("proc-macro derive panicked")
+        })
+        .collect::<Vec<_>>()
+        .join("\n")
+}
+
 /// `rej` rendering made independent of where a module sits in the file: every diagnostic is
 /// keyed by its module and its line relative to the module's first line, then sorted by module
 fn normalise_rej(rendering: &str, lib_rs: &str) -> String {
@@ -307,12 +438,12 @@ fn prune_acc(dir: &Path, target: &Path, repo: &Path, backend: Backend, items: &[
     Err("acc crate: still no expanded output after four pruning rounds".to_string())
 }
 
-/// `alt = true`: the same source as a different *package* (name, version, edition, authors,
+/// `alt = true`: the same source as a different *package* (name, version, authors,
 /// manifest directory): everything cargo tells rustc -- and thereby a proc macro -- about the
 /// crate being compiled (CARGO_PKG_*, CARGO_CRATE_NAME, CARGO_MANIFEST_DIR, --edition,
 /// --crate-name) differs, the derive inputs do not
 fn setup_crate_as(dir: &Path, repo: &Path, backend: Backend, lib_rs: &str, alt: bool) -> Result<(), String> {
-    let (name, version, edition, extra) = if alt { ("tier-r-alt-pkg", "9.9.9", "2018", "authors = [\"Somebody Else <else@example.org>\"]\ndescription = \"another crate\"\n") } else { ("tier-r", "0.0.0", "2021", "") };
+    let (name, version, edition, extra) = if alt { ("tier-r-alt-pkg", "9.9.9", "2021", "authors = [\"Somebody Else <else@example.org>\"]\ndescription = \"another crate\"\n") } else { ("tier-r", "0.0.0", "2021", "") };
     let manifest = format!(
         "[package]\nname = \"{}\"\nversion = \"{}\"\nedition = \"{}\"\n{}\n[workspace]\n\n[lib]\npath = \"src/lib.rs\"\n\n[dependencies]\no2o = {{ path = \"{}\", default-features = false, features = [\"{}\"] }}\n",
         name,
@@ -339,6 +470,8 @@ pub struct Selected {
     pub acc: Vec<String>,
     /// inputs on which the expander panics (rustc reports "proc-macro derive panicked")
     pub pan: Vec<String>,
+    /// every diagnostic text the expander produced for the rejected inputs (host tier)
+    pub o2o_messages: std::collections::BTreeSet<String>,
     pub candidates: usize,
 }
 
@@ -364,7 +497,13 @@ pub fn select_items(cfg: &Cfg, corpus: &Corpus) -> Result<Selected, String> {
     let mut rej = Vec::new();
     let mut acc = Vec::new();
     let mut pan = Vec::new();
+    let mut o2o_messages = std::collections::BTreeSet::new();
     for o in &log.obs {
+        if o.verdict == "ERR" {
+            for m in o.text.split('\u{1f}').filter(|m| !m.is_empty()) {
+                o2o_messages.insert(m.replace('\n', "\\n").replace('\r', ""));
+            }
+        }
         let t = &texts[o.input as usize].1;
         if o.verdict == "ERR" && order_sensitive(o) && rej.len() < 60 {
             rej.push(t.clone());
@@ -376,7 +515,7 @@ pub fn select_items(cfg: &Cfg, corpus: &Corpus) -> Result<Selected, String> {
             acc.push(t.clone());
         }
     }
-    Ok(Selected { rej, acc, pan, candidates: n })
+    Ok(Selected { rej, acc, pan, o2o_messages, candidates: n })
 }
 
 pub fn plan_runs(seed: u64, n: usize, dict: &[String]) -> Vec<RunCfg> {
@@ -477,7 +616,8 @@ pub fn run(cfg: &Cfg, corpus: &Corpus) -> Result<TierResult, String> {
             if let Some(ref_r) = &reference {
                 let original = crate_source(items);
                 let order: Vec<usize> = (0..items.len()).rev().collect();
-                let reversed = crate_source_ordered(items, &order);
+                // ... each item in other surroundings (nested module, function body, macro_rules expansion)
+                let reversed = crate_source_surroundings(items, &order);
                 // ... compiled as a *different package* (other name, version, edition, manifest
                 // directory), sharing the temp dir of the runs above
                 let alt_dir = base.join(format!("{}-{}-alt", backend.tag(), kind));
@@ -494,17 +634,24 @@ pub fn run(cfg: &Cfg, corpus: &Corpus) -> Result<TierResult, String> {
                 } else {
                     None
                 };
-                let (a, b) = if kind == "rej" { (normalise_rej(ref_r, &original), normalise_rej(&r, &reversed)) } else { (normalise_acc(plain_ref.as_ref().unwrap()), normalise_acc(&r)) };
-                permuted_equal = json!(a == b);
+                // surroundings shift positions and wrap the output: messages and impl items are compared
+                let (a, b) = if kind == "rej" { (normalise_rej_messages(ref_r, &original, &sel.o2o_messages), normalise_rej_messages(&r, &reversed, &sel.o2o_messages)) } else {
+                    // (output that does not lex as Rust cannot be compared token by token: reported, never an alarm)
+                    match (normalise_acc_modules(plain_ref.as_ref().unwrap()), normalise_acc_modules(&r)) {
+                        (Some(a), Some(b)) => (a, b),
+                        _ => ("<unlexable>".to_string(), "<unlexable>".to_string()),
+                    }
+                };
+                permuted_equal = if a == "<unlexable>" { json!("not compared: rustc's expanded output did not lex") } else { json!(a == b) };
                 if a != b && violation.is_none() {
                     let fd = first_diff(&a, &b);
                     let path = cfg.verif.join("replays").join(format!("C19-{}-rustc-{}-{}-order.json", cfg.seed, backend.tag(), kind));
                     let _ = std::fs::create_dir_all(cfg.verif.join("replays"));
                     let v = json!({
                         "property": "C19", "kind": "rustc_tier", "permuted": true,
-                        "what": "real cargo/rustc with the real o2o-macros dylib expanded the same items differently when the crate was compiled as another package (name, version, edition, manifest directory) with its modules in reversed source order (all derives of a crate run in one rustc process, in source order)",
+                        "what": "real cargo/rustc with the real o2o-macros dylib expanded the same items differently when the crate was compiled as another package (name, version, edition, manifest directory) with its modules in reversed source order and every item in other surroundings (nested module, function body, macro_rules expansion) (all derives of a crate run in one rustc process, in source order)",
                         "backend": backend.tag(), "crate_kind": kind, "repo": cfg.repo.to_string_lossy(),
-                        "lib_rs": original, "lib_rs_permuted": reversed,
+                        "lib_rs": original, "lib_rs_permuted": reversed, "o2o_messages": sel.o2o_messages.iter().cloned().collect::<Vec<_>>(),
                         "reference_run": runcfg_json(&runs[0]), "faulty_run": runcfg_json(rc),
                         "first_diff": fd,
                     });
@@ -573,6 +720,7 @@ pub fn replay(cfg: &Cfg, v: &Value, path: &Path) -> i32 {
     let rb = if permuted {
         let original = v["lib_rs"].as_str().unwrap_or("").to_string();
         let reversed = v["lib_rs_permuted"].as_str().unwrap_or("").to_string();
+        let msgs: std::collections::BTreeSet<String> = v["o2o_messages"].as_array().map(|a| a.iter().filter_map(|x| x.as_str().map(|s| s.to_string())).collect()).unwrap_or_default();
         let alt_dir = base.join(format!("{}-{}-alt", backend.tag(), kind));
         if setup_crate_as(&alt_dir, &cfg.repo, backend, &reversed, true).is_err() {
             return 2;
@@ -580,7 +728,7 @@ pub fn replay(cfg: &Cfg, v: &Value, path: &Path) -> i32 {
         let r = if kind == "rej" { render_rej(&alt_dir, &target, &shim, &b) } else { render_acc_mode(&alt_dir, &target, &shim, &b, false) };
         match (ra, r) {
             (Ok(x), Ok(y)) => {
-                let (x, y) = if kind == "rej" { (normalise_rej(&x, &original), normalise_rej(&y, &reversed)) } else { (normalise_acc(&x), normalise_acc(&y)) };
+                let (x, y) = if kind == "rej" { (normalise_rej_messages(&x, &original, &msgs), normalise_rej_messages(&y, &reversed, &msgs)) } else { match (normalise_acc_modules(&x), normalise_acc_modules(&y)) { (Some(a), Some(b)) => (a, b), _ => (String::new(), String::new()) } };
                 return if x != y {
                     println!("replay (rustc tier, reversed source order): outputs differ: {}", first_diff(&x, &y));
                     println!("VIOLATION property=C19 replay={}", path.display());
